@@ -31,7 +31,12 @@ def key_flags(db, name):
         cols = [(c, d) for _, c, d in ix["cols"]]
         t = db.tables[ix["table"]]
         if t["kind"] == "norowid":
-            cols += [(c, d) for _, c, d in t["pk"]]
+            # SQLite appends the PK columns the index does not have yet with the same collation
+            have = [(e.lower(), c or "binary") for e, c, _ in ix["cols"]]
+            for n, c, d in t["pk"]:
+                if (n.lower(), c or "binary") not in have:
+                    cols.append((c, d))
+                    have.append((n.lower(), c or "binary"))
         else:
             cols.append(("", False))
         return cols
